@@ -102,12 +102,14 @@ def run(rep):
         "exact-real semantics for f64 in the transit kernel (tolerance 10 s = 0.0417 deg vs f64 rounding ~1e-13 deg)",
         "chrono year()/month()/day() model (trusted base)"]
     obls = [(jd.jd_formula, (1583, 9999)), (jd.jd_step, "add"), (jd.jd_step, "sub"), (transit.ra_deltas, None), (transit.dhuhr_transit, None),
-            (wiring.get_hours_wiring, None), (wiring.astro_day_wiring, None), (rounding.rounding, ("None", "Dhuhr", -50, 75, 1500))]
+            (wiring.get_hours_wiring, None), (wiring.astro_day_wiring, None), (rounding.rounding, ("None", "Dhuhr", -50, 75, 1500)), (wiring.astro_new_obls, None)]
     obls += [(policy.policy_clauses, (p, ["dhuhr"], "free")) for p in ("None", "AngleBased", "NearestLatitudeFajrIshaInvalid", "SeventhOfNightFajrIshaAlways",
                                                                           "HalfOfNightFajrIshaAlways", "MinutesFromMaghribFajrIshaInvalid")]
     results = base.run_obligations(rep, obls)
     confirm_jd(rep, results)
-    tr = [x for x in results if not x["name"].startswith("JulianDay")]
+    from . import ephsweep as _es
+    _es.confirm_jd_candidates(rep, results)
+    tr = [x for x in results if not x["name"].startswith("JulianDay") and not x["name"].startswith("Astro::new")]
     if any((x["cands"] or x["inconclusive"]) for x in tr) or rep.tier == "thorough":
         confirm(rep, tr)
     from . import ephsweep
